@@ -73,9 +73,14 @@ func (e *executor) dialOp(t []string) (string, bool) {
 	host := string(unhex(t[4]))
 	u := &stun.URI{Scheme: stun.SchemeType(atoi(t[2])), Proto: stun.ProtoType(atoi(t[3])), Host: host, Port: atoi(t[5])}
 	nw := &fakeNet{}
-	cfg := &stun.DialConfig{Net: nw}
-	cfg.TLSConfig.InsecureSkipVerify = true //nolint:gosec
-	cfg.DTLSConfig.InsecureSkipVerify = true
+	// one DialConfig is reused for all dials of a run, as an application would
+	if e.dialCfg == nil {
+		e.dialCfg = &stun.DialConfig{}
+		e.dialCfg.TLSConfig.InsecureSkipVerify = true //nolint:gosec
+		e.dialCfg.DTLSConfig.InsecureSkipVerify = true
+	}
+	cfg := e.dialCfg
+	cfg.Net = nw
 	c, err := stun.DialURI(u, cfg)
 	if err != nil {
 		if errors.Is(err, stun.ErrUnsupportedURI) {
